@@ -122,7 +122,13 @@ def check_output(ds_rows, desc):
         fnames = [f['name'] for f in fdesc]
         if len(set(fnames)) != len(fnames):
             problems.append('field names of %s are not unique: %s' % (r['name'], fnames))
-        fields = {f['name']: Field(f, missing_values=r['schema'].get('missingValues', [''])) for f in fdesc}
+        try:
+            fields = {f['name']: Field(f, missing_values=r['schema'].get('missingValues', [''])) for f in fdesc}
+            for fld in fields.values():
+                fld.cast_value(None)            # an unknown / missing type shows here
+        except Exception as e:                  # total: a field descriptor the schema library rejects is itself a finding
+            problems.append('resource %s has an invalid field descriptor: %s: %s' % (r.get('name'), type(e).__name__, str(e)[:100]))
+            continue
         for i, row in enumerate(rows):
             extra = [k for k in row if k not in fields]
             if extra:
